@@ -40,7 +40,7 @@ ASSUMPTIONS = [
     "foreign files: seconds are compared with the exact rational value within 1e-9 relative",
 ]
 COMPONENTS = {"real": ["partitura.io.exportmidi.save_performance_midi", "partitura.io.importmidi.load_performance_midi/adjust_time", "partitura.io.load_performance", "partitura.performance", "mido"], "stub": ["raw file layer (SimFS)", "independent SMF codec (model/ref_smf.py) as peer reader and writer"]}
-PROBES = ("second_generation", "list_input", "ppart_input", "merge_tracks_save", "merge_tracks_load", "tick_half_boundary", "tempo_in_later_track", "multiple_tempo_segments", "zero_velocity_note_on_as_off", "fault_in_flight", "load_performance_chain", "reader_on_torn_file")
+PROBES = ("midifile_object_reused", "second_generation", "list_input", "ppart_input", "merge_tracks_save", "merge_tracks_load", "tick_half_boundary", "tempo_in_later_track", "multiple_tempo_segments", "zero_velocity_note_on_as_off", "fault_in_flight", "load_performance_chain", "reader_on_torn_file")
 
 
 # ----------------------------------------------------------------------------
@@ -146,8 +146,8 @@ def generate(seed, tier, cfg):
     form = k.choice(("performance", "performance", "list", "ppart"))
     ops = [{"k": "save", "route": o.choice(("path", "path", "filelike"))}]
     for _ in range(k.choice((1, 2, 3))):
-        ops.append({"k": "save", "route": o.choice(("path", "filelike"))} if o.random() < 0.25 else {"k": "load", "route": o.choice(("path", "midifile", "load_performance"))})
-    ops.append({"k": "load", "route": o.choice(("path", "midifile", "load_performance"))})
+        ops.append({"k": "save", "route": o.choice(("path", "filelike"))} if o.random() < 0.25 else {"k": "load", "route": o.choice(("path", "midifile", "midifile", "load_performance")), "merge": o.random() < 0.3})
+    ops.append({"k": "load", "route": o.choice(("path", "midifile", "midifile", "load_performance")), "merge": o.random() < 0.3})
     if o.random() < 0.6:
         # second generation: edit the loaded performance and save it again
         ops.append({"k": "regen", "shift": o.choice((0.0, 0.0, 0.25, 1.5, 0.013)), "ppq": o.choice(("same", "same", 480, 96)), "mpq": o.choice((500000, 500000, "same", 750000))})
@@ -477,6 +477,8 @@ def execute(case, keep_log=False):
     ntracks = len(set(n["track"] for pp in pps for n in pp.notes))
     nontrivial = ntracks >= 2 or form == "list"
     last_loaded = [None]
+    shared_mf = {}
+    content_gen = [0]
     with fs:
         g0 = G.fingerprint()
         for i, op in enumerate(case["ops"]):
@@ -499,6 +501,7 @@ def execute(case, keep_log=False):
                 if fs.inflight_points:
                     res.probe("fault_in_flight")
                     nontrivial = True
+                content_gen[0] += 1
                 if outcome == "ack":
                     content[path] = "ref"
                     if fs.get(path) != ref_bytes:
@@ -529,12 +532,19 @@ def execute(case, keep_log=False):
                 state = content.get(path)
                 loaded = None
                 route = op["route"]
-                merged = kn["merge_load"] and route != "load_performance"
+                merge_flag = op.get("merge", kn["merge_load"])
+                merged = merge_flag and route != "load_performance"
                 try:
                     if route == "path":
-                        loaded = load_performance_midi(path, merge_tracks=kn["merge_load"])
+                        loaded = load_performance_midi(path, merge_tracks=merge_flag)
                     elif route == "midifile":
-                        loaded = load_performance_midi(mido.MidiFile(path), merge_tracks=kn["merge_load"])
+                        # one MidiFile object per stored file generation, shared by all loads of that generation
+                        # (the caller's object must survive a load unchanged)
+                        if shared_mf.get("gen") != content_gen[0]:
+                            shared_mf["gen"], shared_mf["mf"] = content_gen[0], mido.MidiFile(path)
+                        else:
+                            res.probe("midifile_object_reused")
+                        loaded = load_performance_midi(shared_mf["mf"], merge_tracks=merge_flag)
                     else:
                         res.probe("load_performance_chain")
                         loaded = pt.load_performance(path)
